@@ -213,12 +213,22 @@ package placement
 
 // tryCommitPatch: any error leaves the served rules, groups and rule list untouched; on success the patch was
 // validated (rule list built), trimmed, saved, and only then committed and the new rule list served.
+// A served rule points at the served configuration of its group (or, when the group has no configuration, at a
+// default-valued one): the order in which rules are reported and the override semantics are read through that pointer.
+//@ pure servedGroupsOK(m *RuleManager) = forall k int :: {mapin(m.ruleConfig.rules, k)} mapin(m.ruleConfig.rules, k) ==> mapval(m.ruleConfig.rules, k) != nil && mapval(m.ruleConfig.rules, k).group != nil && (in(m.ruleConfig.groups, mapval(m.ruleConfig.rules, k).GroupID) ==> mapval(m.ruleConfig.rules, k).group == m.ruleConfig.groups[mapval(m.ruleConfig.rules, k).GroupID]) && (!in(m.ruleConfig.groups, mapval(m.ruleConfig.rules, k).GroupID) ==> mapval(m.ruleConfig.rules, k).group.Index == 0 && !mapval(m.ruleConfig.rules, k).group.Override)
+// restoreRuleGroups (two lines: iterate the served rules, re-point each at its served group): trusted to do that - the
+// iteration goes through a callback over a map range.
+//@ func (*RuleManager).restoreRuleGroups
+//@   assumed
+//@   ensures servedGroupsOK(m)
+//@   modifies all Rule.group
 //@ func (*RuleManager).tryCommitPatch
 //@   props C13
 //@   requires wfPatch(patch) && patch.c == m.ruleConfig && m.storage != nil
 //@   ensures [fail-list-unchanged] result != nil ==> m.ruleList == old(m.ruleList)
 //@   ensures [fail-no-commit] result != nil ==> last("patchCommit") == 0
 //@   ensures [fail-served-maps-unchanged] result != nil ==> (forall k int :: mapval(m.ruleConfig.rules, k) == old(mapval(m.ruleConfig.rules, k)) && mapin(m.ruleConfig.rules, k) == old(mapin(m.ruleConfig.rules, k)) && mapval(m.ruleConfig.groups, k) == old(mapval(m.ruleConfig.groups, k)) && mapin(m.ruleConfig.groups, k) == old(mapin(m.ruleConfig.groups, k)))
+//@   ensures [rejected-update-leaves-rules-on-their-served-groups] result != nil ==> servedGroupsOK(m)
 //@   ensures [ok-order] result == nil ==> last("savePatch") > 0 && last("patchCommit") > last("savePatch")
 //@   at savePatch 1 assert [validated-first] err == nil && arg0 == patch.mut
 //@   at commit 1 assert [saved-first] err == nil && last("savePatch") > 0
